@@ -5,6 +5,7 @@ import (
 	"bytes"
 	"context"
 	"fmt"
+	"github.com/cloudwego/hertz/pkg/app/server/registry"
 	"io"
 	"net"
 	"os"
@@ -80,6 +81,10 @@ type scen struct {
 	// Signal: "" = Shutdown is called directly; INT/HUP/TERM = the server runs under Spin()
 	// and shutdown is requested by that signal (what a supervisor sends)
 	Signal string
+	// Callers: number of goroutines that call Shutdown at the same moment (1 = the usual single call)
+	Callers int
+	// RegistryFails: the server has a service registry whose Deregister returns an error
+	RegistryFails bool
 }
 
 // readAll reads until EOF/error with a deadline and returns what arrived.
@@ -124,11 +129,28 @@ func readResp(c net.Conn, d time.Duration, methods []string, want int) ([]byte, 
 	return data, completeAt
 }
 
+type failingRegistry struct{}
+
+func (failingRegistry) Register(*registry.Info) error   { return nil }
+func (failingRegistry) Deregister(*registry.Info) error { return fmt.Errorf("registry unreachable") }
+
+var nilShutdowns int32
+
 func oneScenario(w *mon.W, c *mon.Case) {
+	atomic.StoreInt32(&nilShutdowns, 0)
 	r := c.R
 	s := scen{Netpoll: r.Bool(), ExitWait: []time.Duration{300 * time.Millisecond, 800 * time.Millisecond, 2 * time.Second}[r.Intn(w.Pick(2, 3))], Busy: r.Intn(5), Idle: r.Intn(4), Mid: r.Intn(3), Pipelined: r.Chance(3), Release: r.Str("before", "soon", "soon", "late")}
 	if r.Chance(4) {
 		s.Signal = r.Str("INT", "HUP", "TERM")
+	}
+	s.Callers = 1
+	if s.Signal == "" && r.Chance(4) {
+		s.Callers = 2 + r.Intn(4)
+	}
+	s.RegistryFails = r.Chance(8)
+	if s.RegistryFails {
+		// violations in this sub-domain are attributed separately (see known_findings.txt)
+		c.KeyTag = "failing-deregistration"
 	}
 	for k := r.Intn(4); k > 0; k-- {
 		s.Hooks = append(s.Hooks, r.Str("fast", "slow", "beyond"))
@@ -165,6 +187,9 @@ func oneScenario(w *mon.W, c *mon.Case) {
 				}
 				return ctx
 			}))
+		}
+		if s.RegistryFails {
+			sopts = append(sopts, server.WithRegistry(failingRegistry{}, &registry.Info{ServiceName: "verif", Addr: &net.TCPAddr{IP: net.IPv4(127, 0, 0, 1), Port: port}}))
 		}
 		h = server.New(sopts...)
 		runErr = make(chan error, 1)
@@ -356,7 +381,31 @@ func oneScenario(w *mon.W, c *mon.Case) {
 			}
 		}()
 	} else {
-		go func() { done <- h.Shutdown(context.Background()) }()
+		// Callers goroutines call Shutdown at the same moment: the call that carries out the
+		// shutdown reports its outcome, every other one must report an error — none may
+		// claim success while the shutdown is still going on
+		results := make(chan error, s.Callers)
+		startAll := make(chan struct{})
+		for k := 0; k < s.Callers; k++ {
+			go func() {
+				<-startAll
+				results <- h.Shutdown(context.Background())
+			}()
+		}
+		close(startAll)
+		go func() {
+			var last error
+			nils := 0
+			for k := 0; k < s.Callers; k++ {
+				e := <-results
+				if e == nil {
+					nils++
+				}
+				last = e
+			}
+			atomic.StoreInt32(&nilShutdowns, int32(nils))
+			done <- last
+		}()
 	}
 	switch s.Release {
 	case "soon":
@@ -399,6 +448,16 @@ func oneScenario(w *mon.W, c *mon.Case) {
 	}
 	dur := time.Since(t0)
 	tReturned := time.Now()
+	if n := atomic.LoadInt32(&nilShutdowns); s.Callers > 1 {
+		w.Count("scenarios_with_concurrent_shutdown_calls", 1)
+		if n > 1 {
+			fail("second-shutdown-nil", "%d of %d simultaneous Shutdown calls returned nil; only the one that carries out the shutdown may", n, s.Callers)
+			return
+		}
+	}
+	if s.RegistryFails {
+		w.Count("scenarios_with_failing_deregistration", 1)
+	}
 	_ = sdErr
 	if dur > s.ExitWait+2*time.Second {
 		fail("shutdown-bound", "Shutdown took %v with ExitWaitTime %v", dur.Round(time.Millisecond), s.ExitWait)
